@@ -58,6 +58,10 @@ type gcase struct {
 		I  int    `json:"i"`
 		Lc string `json:"lc"`
 	} `json:"h"`
+	// idl replay of a recorded history (k = "idlx")
+	Size  int  `json:"size"`
+	Tsize int  `json:"tsize"`
+	Steps []ev `json:"steps"`
 	// e2e
 	Pols []string `json:"pols"`
 	Par  int      `json:"par"`
@@ -107,6 +111,7 @@ func main() {
 	switch *mode {
 	case "idl":
 		runIdl(o, rng, readCases(*cases, "idl"), *nrand, stats)
+		runIdlReplay(o, rng, readCases(*cases, "idlx"))
 	case "mag":
 		runMag(o, rng, readCases(*cases, "mag"), *nrand, stats)
 	case "e2e":
